@@ -157,9 +157,10 @@ def rule_c(ctx):
     out_name = am.actual("cell_flux") or "cell_flux"
     ups = [s for s in ast.walk(f.node) if isinstance(s, ast.AugAssign) and isinstance(s.target, ast.Subscript) and norm(s.target.value) == out_name]
     per_axis = {}
-    if not ups or not all(isinstance(s.target.slice, ast.Tuple) for s in ups):
+    sem0 = _fold_face_to_cell(f)
+    if sem0 is not None or not ups or not all(isinstance(s.target.slice, ast.Tuple) for s in ups):
         ctx.instance(R, 3)
-        sem = _fold_face_to_cell(f)
+        sem = sem0
         if sem is not None:
             ctx.ob(R, f.qname, "per axis d: component d of cells [:-1] gets pt[d] * faces of axis d, of cells [1:] gets (1 - pt[d]) * the same faces (folded for 1, 2, 3 dimensions)",
                    not sem, "; ".join(sem[:3]), f.node, evidence=True)
